@@ -47,7 +47,7 @@ Answers == IF ex.purpose = "bypass" THEN {APost}
 BgAnswers == {A304, A200}
 
 \* the running exchange is at a point where it is about to touch shared state
-AtGate == ex.pc \in {"getrefs", "getent", "origin", "setent", "setidx", "inv", "bgorigin", "bggetent", "bgsetent", "bgsetidx"}
+AtGate == ex.pc \in {"getrefs", "getent", "origin", "setent", "setidx", "inv", "bgorigin", "bggetrefs", "bggetent", "bgsetent", "bgsetidx"}
 Finished(e) == e.pc = "idle"
 
 Init == Init0 /\ pos = 1 /\ parked = Idle /\ g0 = 0
